@@ -167,13 +167,17 @@ def term(e, env, mutated=frozenset()):
     return ("opaque", k, e.get("id"))
 
 
+# opt-in (set by a rule around its own term construction): bind the pattern of `let PAT = init else {..}` to projections of init
+LET_ELSE_PROJECTIONS = [False]
+
+
 def block_term(block, env, mutated=frozenset()):
     env = env.child()
     for s in block["stmts"]:
         if s.get("s") == "Let" and "init" in s and "els" not in s:
             vt = term(s["init"], env, mutated)
             bind_pattern(s["pat"], vt, env)
-        elif s.get("s") == "Let" and "init" in s:
+        elif s.get("s") == "Let" and "init" in s and LET_ELSE_PROJECTIONS[0]:
             # `let PAT = init else { diverges }`: past the statement the pattern matched, so its bindings are parts of init
             bind_pattern(s["pat"], term(s["init"], env, mutated), env)
         elif s.get("s") == "Let":
@@ -270,7 +274,7 @@ def env_at(parents, target, mutated=frozenset(), base=None):
                     continue
                 sk = _span_key(st.get("span"))
                 if tk and sk and sk[0] == tk[0] and sk[2] <= tk[1]:
-                    if "init" in st:
+                    if "init" in st and ("els" not in st or LET_ELSE_PROJECTIONS[0]):
                         bind_pattern(st["pat"], term(st["init"], env, mutated), env)
                     else:
                         bind_pattern(st["pat"], None, env)
